@@ -3,6 +3,7 @@ import ExponaxModel.Generated.Misc
 import ExponaxModel.Model.EtdrkSpec
 import ExponaxModel.Proofs.ReadOffForcing
 import ExponaxModel.Proofs.NonlinFunsEq
+import ExponaxModel.Proofs.LaminarEquilibriaExamples
 /-
 C12 — forcing terms inject exactly the documented field.
 `Gen.Misc.forced_step*` are regenerated from `exponax/_forced_stepper.py`; `Gen.Etdrk.*` from `etdrk/`.
@@ -87,5 +88,161 @@ theorem C12_generated_forced_terms (c : Nonlin.Cfg ℂ) (s : ℝ) (hs : c.s = (s
       Gen.NonlinFuns.ProjectedConvection3dKolmogorov_call c m gam uh = Nonlin.projected3d c (some (m, gam)) uh) :=
   ⟨NonlinFunsEq.VorticityConvection2dKolmogorov_call_eq c s hs scale m gam uh,
    fun hD hm => NonlinFunsEq.ProjectedConvection3dKolmogorov_call_eq c hD m hm gam uh⟩
+
+
+/-! ### the WHOLE spectrum along the laminar trajectory (library `Proofs/Laminar*.lean`): the 2-D vorticity convection term
+vanishes identically on every shear spectrum (support on k₀ = 0), so from ANY shear state — in particular from rest — every
+ETDRK order evolves the forced stepper by the scalar recurrence on the forced mode and leaves all other modes alone; with exact
+coefficients the n-th iterate is f̂ (e^{nσdt} − 1)/σ at the forced mode and 0 elsewhere, and with the STORED contour
+coefficients all four orders give one and the same trajectory Σ_i E^i · c₁ f̂ (any M, r).  3-D: the same for the two
+Kolmogorov modes (`_partial`: the 3-D term is shown to vanish for the two-mode shear spectra the trajectory visits, not for an
+arbitrary real profile f(x₁), where an even-N Nyquist entry would need Hermitian symmetry). -/
+
+open Exponax.Laminar Exponax.Laminar3D in
+theorem C12_shear_flow_has_no_convection :
+    ∀ (c : Nonlin.Cfg ℂ),
+      0 < c.N →
+        ∀ (scale : ℂ) (uh : Nonlin.MC ℂ),
+          IsShear c uh → Nonlin.vorticity2d c scale none uh = Nonlin.tab2 1 (Nonlin.modes c) fun x x_1 ↦ 0 :=
+  @Exponax.Laminar.vorticity2d_shear_zero
+
+open Exponax.Laminar Exponax.Laminar3D in
+theorem C12_injection_is_documented_field :
+    ∀ (c : Nonlin.Cfg ℂ) (s γ : ℝ),
+      c.s = ↑s →
+        c.D = 2 →
+          ∀ (scale : ℂ) (m : ℕ),
+            2 * m < c.N →
+              ∀ (h : ℕ),
+                forcing c scale (some (m, ↑γ)) h = (Transform.rfftnM 2 c.N (ReadOff.kolmogorovVorticity c.N m s γ)).getD h 0 :=
+  @Exponax.Laminar.forcing_is_field
+
+open Exponax.Laminar Exponax.Laminar3D in
+theorem C12_laminar_whole_spectrum_any_coefficients :
+    ∀ (c : Nonlin.Cfg ℂ),
+      0 < c.N →
+        ∀ (scale : ℂ) (inj : Option (ℕ × ℂ)) (E Eh a1 a2 a3 a4 a5 a6 v : ℕ → ℂ),
+          ShearSpec c v →
+            ∀ (n : ℕ),
+              (Gen.Etdrk.E4step E Eh a1 a2 a3 a4 a5 a6 (Conserve.liftNl c (Nonlin.vorticity2d c scale inj)))^[n] v =
+                E ^ n * v + (∑ i ∈ Finset.range n, E ^ i) * ((a4 + 4 * a5 + a6) * forcing c scale inj) :=
+  @Exponax.Laminar.laminar_E4
+
+open Exponax.Laminar Exponax.Laminar3D in
+theorem C12_laminar_from_rest_exact :
+    ∀ (c : Nonlin.Cfg ℂ),
+      c.D = 2 →
+        ∀ (scale γ : ℂ) (m : ℕ),
+          0 < m →
+            2 * m < c.N →
+              ∀ (σ dt : ℂ),
+                σ ≠ 0 →
+                  dt ≠ 0 →
+                    ∀ (E Eh a1 a2 a3 a4 a5 a6 : ℕ → ℂ),
+                      E m = Complex.exp (σ * dt) →
+                        a4 m = dt * (Spec.phi1 (σ * dt) - 3 * Spec.phi2 (σ * dt) + 4 * Spec.phi3 (σ * dt)) →
+                          a5 m = dt * (Spec.phi2 (σ * dt) - 2 * Spec.phi3 (σ * dt)) →
+                            a6 m = dt * (4 * Spec.phi3 (σ * dt) - Spec.phi2 (σ * dt)) →
+                              ∀ (n : ℕ),
+                                (Gen.Etdrk.E4step E Eh a1 a2 a3 a4 a5 a6
+                                        (Conserve.liftNl c (Nonlin.vorticity2d c scale (some (m, γ)))))^[n]
+                                    0 =
+                                  laminarSpectrum c γ m σ dt n :=
+  @Exponax.Laminar.laminar_exact_E4
+
+open Exponax.Laminar Exponax.Laminar3D in
+theorem C12_laminar_from_rest_stored :
+    ∀ (c : Nonlin.Cfg ℂ),
+      c.D = 2 →
+        ∀ (scale γ : ℂ) (m : ℕ),
+          0 < m →
+            2 * m < c.N →
+              ∀ (dt r : ℂ) (M : ℕ) (L : ℕ → ℂ) (n : ℕ),
+                (Gen.Etdrk.E4step (fun h ↦ Gen.Etdrk.exp_term dt (L h)) (fun h ↦ Gen.Etdrk.E4_half_exp_term dt (L h) M r)
+                        (fun h ↦ Gen.Etdrk.E4_coef_1 dt (L h) M r) (fun h ↦ Gen.Etdrk.E4_coef_2 dt (L h) M r)
+                        (fun h ↦ Gen.Etdrk.E4_coef_3 dt (L h) M r) (fun h ↦ Gen.Etdrk.E4_coef_4 dt (L h) M r)
+                        (fun h ↦ Gen.Etdrk.E4_coef_5 dt (L h) M r) (fun h ↦ Gen.Etdrk.E4_coef_6 dt (L h) M r)
+                        (Conserve.liftNl c (Nonlin.vorticity2d c scale (some (m, γ)))))^[n]
+                    0 =
+                  laminarStored c γ m dt (L m) r M n :=
+  @Exponax.Laminar.laminar_stored_E4
+
+open Exponax.Laminar Exponax.Laminar3D in
+theorem C12_laminar_stored_is_exact_when_coefficient_is :
+    ∀ (c : Nonlin.Cfg ℂ) (γ : ℂ) (m : ℕ) (dt σ r : ℂ) (M n : ℕ),
+      σ ≠ 0 →
+        dt ≠ 0 →
+          Gen.Etdrk.E1_coef_1 dt σ M r = dt * Spec.phi1 (σ * dt) →
+            laminarStored c γ m dt σ r M n = laminarSpectrum c γ m σ dt n :=
+  @Exponax.Laminar.laminarStored_eq_exact
+
+open Exponax.Laminar Exponax.Laminar3D in
+theorem C12_unforced_shear_is_linear :
+    ∀ (c : Nonlin.Cfg ℂ),
+      0 < c.N →
+        ∀ (scale : ℂ) (E Eh a1 a2 a3 a4 a5 a6 v : ℕ → ℂ),
+          ShearSpec c v →
+            ∀ (n : ℕ),
+              (Gen.Etdrk.E4step E Eh a1 a2 a3 a4 a5 a6 (Conserve.liftNl c (Nonlin.vorticity2d c scale none)))^[n] v =
+                E ^ n * v :=
+  @Exponax.Laminar.shear_unforced_linear
+
+open Exponax.Laminar Exponax.Laminar3D in
+theorem C12_laminar_3d_stored :
+    ∀ (c : Nonlin.Cfg ℂ),
+      c.D = 3 →
+        ∀ (s : ℝ),
+          c.s = ↑s →
+            s ≠ 0 →
+              ∀ (m : ℕ),
+                0 < m →
+                  2 * m < c.N →
+                    ∀ (gam dt r : ℂ) (M : ℕ) (L : ℕ → ℕ → ℂ) (n i h : ℕ),
+                      (Gen.Etdrk.E1step (fun i h ↦ Gen.Etdrk.exp_term dt (L i h))
+                                (fun i h ↦ Gen.Etdrk.E1_coef_1 dt (L i h) M r)
+                                (liftNl3 c (Nonlin.projected3d c (some (m, gam)))))^[n]
+                            0 i h =
+                          (∑ j ∈ Finset.range n, Gen.Etdrk.exp_term dt (L i h) ^ j) *
+                            (Gen.Etdrk.E1_coef_1 dt (L i h) M r * forcing3 c (some (m, gam)) i h) ∧
+                        (Gen.Etdrk.E3step (fun i h ↦ Gen.Etdrk.exp_term dt (L i h))
+                                  (fun i h ↦ Gen.Etdrk.E3_half_exp_term dt (L i h) M r)
+                                  (fun i h ↦ Gen.Etdrk.E3_coef_1 dt (L i h) M r)
+                                  (fun i h ↦ Gen.Etdrk.E3_coef_2 dt (L i h) M r)
+                                  (fun i h ↦ Gen.Etdrk.E3_coef_3 dt (L i h) M r)
+                                  (fun i h ↦ Gen.Etdrk.E3_coef_4 dt (L i h) M r)
+                                  (fun i h ↦ Gen.Etdrk.E3_coef_5 dt (L i h) M r)
+                                  (liftNl3 c (Nonlin.projected3d c (some (m, gam)))))^[n]
+                              0 i h =
+                            (∑ j ∈ Finset.range n, Gen.Etdrk.exp_term dt (L i h) ^ j) *
+                              (Gen.Etdrk.E1_coef_1 dt (L i h) M r * forcing3 c (some (m, gam)) i h) ∧
+                          (Gen.Etdrk.E4step (fun i h ↦ Gen.Etdrk.exp_term dt (L i h))
+                                  (fun i h ↦ Gen.Etdrk.E4_half_exp_term dt (L i h) M r)
+                                  (fun i h ↦ Gen.Etdrk.E4_coef_1 dt (L i h) M r)
+                                  (fun i h ↦ Gen.Etdrk.E4_coef_2 dt (L i h) M r)
+                                  (fun i h ↦ Gen.Etdrk.E4_coef_3 dt (L i h) M r)
+                                  (fun i h ↦ Gen.Etdrk.E4_coef_4 dt (L i h) M r)
+                                  (fun i h ↦ Gen.Etdrk.E4_coef_5 dt (L i h) M r)
+                                  (fun i h ↦ Gen.Etdrk.E4_coef_6 dt (L i h) M r)
+                                  (liftNl3 c (Nonlin.projected3d c (some (m, gam)))))^[n]
+                              0 i h =
+                            (∑ j ∈ Finset.range n, Gen.Etdrk.exp_term dt (L i h) ^ j) *
+                              (Gen.Etdrk.E1_coef_1 dt (L i h) M r * forcing3 c (some (m, gam)) i h) :=
+  @Exponax.Laminar3D.laminar3d_stored
+
+open Exponax.Laminar Exponax.Laminar3D in
+theorem C12_shear_3d_no_convection_partial :
+    ∀ (c : Nonlin.Cfg ℂ),
+      c.D = 3 →
+        ∀ (s : ℝ),
+          c.s = ↑s →
+            s ≠ 0 →
+              ∀ (m : ℕ),
+                0 < m →
+                  2 * m < c.N →
+                    ∀ (uh : Nonlin.MC ℂ),
+                      TwoMode c m uh →
+                        ∀ (i h : ℕ), i < 3 → h < Nonlin.modes c → Nonlin.at2 (Nonlin.projected3d c none uh) i h = 0 :=
+  @Exponax.Laminar3D.projected3d_shear_none_partial
+
 
 end Exponax
